@@ -239,6 +239,12 @@ func (hs *clientHandshakeStateGM) doFullHandshake() error {
 			for _, rootca := range getCAs() {
 				opts.Roots.AddCert(rootca)
 			}
+			// what follows the two leaves helps to build their chains
+			for i, cert := range certs {
+				if i >= 2 {
+					opts.Intermediates.AddCert(cert)
+				}
+			}
 			for i, cert := range certs {
 				// GM SSL 证书链中不含根证书 第1张为签名证书、第2张为加密证书，其他的证书都认为是根证书
 				if i == 0 || i == 1 {
